@@ -170,6 +170,11 @@ func gen(r *rand.Rand, id int) Case {
 		if r.Intn(5) < 3 {
 			f.Kind = "after"
 		}
+		if r.Intn(4) == 0 { // exactly at the statement this start resumes with
+			if p := firstScriptCall(db, c.Cfg); p >= 0 {
+				f.N = p
+			}
+		}
 		if len(errPool) > 0 && r.Intn(2) == 0 {
 			f.Err = errPool[r.Intn(len(errPool))]
 		}
@@ -205,6 +210,16 @@ func loadErrPool(path string) {
 	if err := json.Unmarshal(b, &errPool); err != nil {
 		panic(err)
 	}
+}
+
+// call number of the first script statement the next start would execute (-1: none)
+func firstScriptCall(db *DB, cfg Cfg) int {
+	for i, e := range start(db.Clone(), cfg, nil).Log {
+		if e.T == "s" {
+			return i
+		}
+	}
+	return -1
 }
 
 // targeted: per main configuration and per error value, `per` failures before a script statement, one at a
@@ -245,6 +260,42 @@ func targeted(r *rand.Rand, per int, out *hx.Out) {
 				runCase(&c)
 				out.Put(c)
 				id++
+			}
+			// resume points: the first script statement a start executes (index == recorded version) -- on a fresh
+			// database for the first and for a later stream, and after a start that was interrupted at a script
+			if len(scripts) > 0 {
+				fresh := []int{scripts[0]}
+				if len(rds) > 1 {
+					for _, p := range scripts {
+						if p > rds[1] {
+							fresh = append(fresh, p)
+							break
+						}
+					}
+				}
+				for _, p := range fresh {
+					c := Case{ID: id, Class: names[ci] + "/error-value-resume-fresh", Cfg: cfg, Faults: []*Fault{{N: p, Kind: "before", Err: spec}}}
+					runCase(&c)
+					out.Put(c)
+					id++
+				}
+				for v, kinds := range [][2]string{{"before", "before"}, {"after", "before"}, {"before", "after"}} {
+					first := &Fault{N: scripts[r.Intn(len(scripts))], Kind: kinds[0]}
+					if v == 0 && r.Intn(2) == 0 {
+						first.N++ // interrupted at the version write instead
+					}
+					db := NewDB()
+					start(db, cfg, first)
+					p := firstScriptCall(db, cfg)
+					if p < 0 {
+						continue
+					}
+					c := Case{ID: id, Class: names[ci] + "/error-value-resume-restart", Cfg: cfg,
+						Faults: []*Fault{first, {N: p, Kind: kinds[1], Err: spec}}}
+					runCase(&c)
+					out.Put(c)
+					id++
+				}
 			}
 			// the same error value at the version read of a LATER start (versions are recorded by then): a first
 			// start interrupted somewhere among the scripts, then the first version read of the second start fails
